@@ -31,7 +31,19 @@ func newBase(rule rule) Base {
 			comment = rule[len(rule)-1].comment
 		}
 	}
+	// The markers as the comment template prints them, in its order, in front of the comment itself
+	marker := func(name string) bool {
+		rest, ok := strings.CutPrefix(comment, " "+name)
+		if ok && (rest == "" || rest[0] == ' ') {
+			comment = rest
+		}
+		return ok && (rest == "" || rest[0] == ' ')
+	}
+	fileInherit = marker("file_inherit")
+	noNewPrivs = marker("no new privs")
+	optional = marker("optional:")
 	switch {
+	case fileInherit || noNewPrivs || optional:
 	case strings.Contains(comment, "file_inherit"):
 		fileInherit = true
 		comment = strings.Replace(comment, "file_inherit ", "", 1)
